@@ -182,8 +182,8 @@ def check_usable(label, classes, start, expansion, g, rec):
             got = sorted(c.__name__ for c in ug.alternatives.get(a, []))
             if ref != got:
                 rec.violation("usable_grammar:productions-differ", dict(wit, symbol=a.__name__, usable=got, reference=ref))
-    if ug.expansion_depthing != g.expansion_depthing and expansion:
-        rec.count("usable_drops_expansion_mode")
+    if bool(ug.expansion_depthing) != bool(g.expansion_depthing):
+        rec.violation("usable_grammar:depthing-mode-dropped", dict(wit, original=bool(g.expansion_depthing), usable=bool(ug.expansion_depthing)))
     compare(label, sorted(reach | ancestors, key=lambda c: c.__name__), start, bool(ug.expansion_depthing), ug, rec, which="usable")
 
 
